@@ -141,8 +141,19 @@ func minimiseMode(t *testing.T, engine, prop string, fn PropFn) {
 		cur = trimZeros(append([]int{}, rf.Trace...))
 		flaky = true
 		if !confirm(cur) {
-			fmt.Println("INFRA minimised trace does not reproduce")
-			os.Exit(2)
+			if lastGood == nil || lastGood.Viol == nil {
+				fmt.Println("INFRA minimised trace does not reproduce")
+				os.Exit(2)
+			}
+			// the violation showed once in this process and not again: the code under test keeps state across
+			// executions in a process-wide pool (a buffer that has grown does not grow again). Only a fresh
+			// process can repeat it: hand the raw trace to the driver, which replays it in one.
+			fin = lastGood
+			out := &ReplayFile{Property: prop, Engine: engine, Seed: rf.Seed, Tier: rf.Tier, Trace: cur, Violation: fin.Viol,
+				Cfg: fin.Cfg, Log: tail(annotate(fin), 600), Minimised: false, RawLen: rf.RawLen, RepoRev: os.Getenv("VERIF_REPO_REV"), Flaky: true}
+			writeJSON(outPath, out)
+			fmt.Printf("MINIMISED raw=%d min=%d tries=%d oracle=%s (not minimised: reproduces only once per process)\n", rf.RawLen, len(cur), tries, oracle)
+			return
 		}
 	}
 	_ = lastGood
